@@ -721,5 +721,42 @@ Proof.
     + apply blocks_chunks_ok; assumption.
     + rewrite Forall_forall in *. intros l Hl. split; [right; apply preamble_require_nl, Hl | apply Hpr, Hl].
 Qed.
+
+(* the tokens of one embedded package, for a stripping step that acts on the significant tokens as
+   [sstrip] does: the file's tokens, or the file's tokens without what [sstrip] removes *)
+Section Strip.
+Variable sstrip : list T -> list T.
+Hypothesis strip_tokens : forall q q', strip q = Ok q' ->
+  sigt (concat (echo q')) = option_map sstrip (sigt (concat (echo q))).
+
+Lemma loaded_block_tokens e : loaded e ->
+  exists rpath (gl : bool) qpath content, find rpath (fst e) = Some (qpath, content) /\
+    (lexes content ->
+     lexes (concat (echo (snd e))) /\
+     toks (concat (echo (snd e))) = if gl then toks content else sstrip (toks content)).
+Proof.
+  intros (rpath & gl & qpath & Hl). exists rpath, gl.
+  unfold ReqEmbed.load in Hl. destruct (find rpath (fst e)) as [[path content]|]; [|discriminate].
+  destruct (parse_lines (file_lines content)) as [q0|e0] eqn:Hq; [|discriminate]. cbn [bind] in Hl.
+  pose proof (echo_faithful _ _ Hq) as E0. rewrite file_lines_concat in E0.
+  exists path, content. destruct gl.
+  - cbn [bind] in Hl. injection Hl as <- <-. split; [reflexivity|]. intros Hc. rewrite E0. split; [exact Hc | reflexivity].
+  - destruct (strip q0) as [q1|e1] eqn:Hs; [|discriminate]. cbn [bind] in Hl. injection Hl as <- <-.
+    split; [reflexivity|]. intros Hc. pose proof (strip_tokens _ _ Hs) as H. rewrite E0 in H.
+    rewrite (lexes_toks _ Hc) in H. cbn [option_map] in H.
+    split; [unfold lexes; rewrite H; discriminate | unfold toks at 1; rewrite H; reflexivity].
+Qed.
+
+Lemma build_block_tokens fuel mp mc r pk :
+  build_lua fuel mp mc = Ok (r, pk) ->
+  Forall (fun e => exists rpath (gl : bool) qpath content, find rpath (fst e) = Some (qpath, content) /\
+            (lexes content ->
+             lexes (concat (echo (snd e))) /\
+             toks (concat (echo (snd e))) = if gl then toks content else sstrip (toks content))) pk.
+Proof.
+  intros H. destruct (build_once _ _ _ _ _ H) as (m & _ & _ & _ & _ & Hl).
+  eapply Forall_impl; [|exact Hl]. intros e. apply loaded_block_tokens.
+Qed.
+End Strip.
 End Tokens.
 End EmbedProofs.
